@@ -113,10 +113,19 @@ theorem F128_Int_Trunc_eq (M P : W) (f : F) (hM : Mult M.toInt) :
   have hM0 : M.toInt ≠ 0 := ne_of_gt hM.pos
   fq_tie [Gen.F128_Int_Trunc, F128_multiplier_eq, hM0] [F128.trunc]
 when_translated Gen.F128_Int_Mod in
-theorem F128_Int_Mod_eq (M P : W) (f v : F) (hM : Mult M.toInt) (hv : v.data.toInt ≠ 0) :
+/-- `Mod` (now `f.data.Mod(value.data)`) is the truncated remainder `a − b·trunc(a/b)` of the raw values for every
+    non-zero divisor, with no hypothesis on an intermediate product — stated as the specification (`Int128.Mod` is taken
+    by the model function of C01, `C01.idivMod_spec`) -/
+theorem F128_Int_Mod_spec (M P : W) (f v : F) (hv : v.data.toInt ≠ 0) :
+    (Gen.F128_Int_Mod M P f v).data.toInt = f.data.toInt.tmod v.data.toInt := by
+  fq_tie [Gen.F128_Int_Mod, hv] []
+when_translated Gen.F128_Int_Mod in
+/-- … and it is the model function `F128.mod` (`Model/Fixed.lean`, the same definition the driver runs) -/
+theorem F128_Int_Mod_eq (M P : W) (f v : F) (hv : v.data.toInt ≠ 0) :
     F128.mod M.toInt f.data.toInt v.data.toInt = some (Gen.F128_Int_Mod M P f v).data.toInt := by
-  have hd := F128_Int_Div_eq M P f v hv
-  fq_tie [Gen.F128_Int_Mod, F128_Int_Sub_eq, F128_Int_Mul_eq _ _ _ _ hM, F128_Int_Trunc_eq _ _ _ hM] [F128.mod, hd]
+  rw [F128_Int_Mod_spec M P f v hv]
+  unfold F128.mod
+  rw [if_neg hv, F128.remI_eq (GenTie128.fits f.data) (GenTie128.fits v.data) hv]
 when_translated Gen.F128_MaxSafeMultiply in
 theorem F128_MaxSafeMultiply_eq (M P : W) (hM : Mult M.toInt) :
     F128.maxSafeMultiply M.toInt = some (Gen.F128_MaxSafeMultiply M P).data.toInt := by
